@@ -31,6 +31,7 @@ KEY_STALE = "stale-state-after-stop"
 KEY_RAISE = "limit-raised-without-move"
 KEY_LOWER = "limit-lowered-without-move"
 KEY_EOF = "sticky-eof-concurrent"
+KEY_STALEWORK = "stale-work-served-after-stop"     # same root cause and patch as KEY_STALE; timing dependent
 FINDINGS = os.path.join(vlib.VERIF, "findings")
 WITNESS = {KEY_STALE: "C14-stale-roi.json", KEY_RAISE: "C14-limit-raise.json",
            KEY_LOWER: "C14-limit-lower.json", KEY_EOF: "C14-sticky-eof.json"}
@@ -182,7 +183,7 @@ def draw_alphabet(rng, fa, size):
 CONC_INVS = "ByteAtPos ReplyOK NoDoubleOwner NoLostBuffer AfterClose DoneKeysDistinct"
 
 
-def conc_model(ctx, name, n, bounds, buf, maxcalls, readlens, seekpos, ranges, fixed, timeout=1500, workers=None, invs=CONC_INVS):
+def conc_model(ctx, name, n, bounds, buf, maxcalls, readlens, seekpos, ranges, fixed, timeout=1500, workers=None, invs=CONC_INVS, deadlock=True):
     mod = "MC_" + name
     data = {
         mod + ".tla": "---- MODULE %s ----\nEXTENDS RacConc\nmc_Bounds == %s\nmc_Ranges == %s\n====\n" % (
@@ -193,7 +194,7 @@ def conc_model(ctx, name, n, bounds, buf, maxcalls, readlens, seekpos, ranges, f
             n, buf, maxcalls, tset(readlens), tset(seekpos), tla(fixed[0]), tla(fixed[1]), tla(fixed[2]), invs),
     }
     res = ctx.tlc(mod, cfg=mod + ".cfg", data=data, timeout=timeout, workers=workers or 3, heap="3g",
-                  extra=["-noGenerateSpecTE"], label="RacConc " + name)
+                  extra=["-noGenerateSpecTE"], label="RacConc " + name, deadlock=None if deadlock else False)
     if res["error"]:
         raise ToolingError("TLC error in RacConc %s:\n%s" % (name, res["error"]))
     res["hist"] = last_hist(res["out"]) if (res["violated"] or res["deadlock"]) else None
@@ -270,7 +271,9 @@ def run_harness(ctx, binp, job, scripts, name, timeout=3000, env=None):
         if line.startswith("S "):
             cur = line.split()
     if r.returncode != 0 or not os.path.exists(op):
-        return {"crash": True, "rc": r.returncode, "stderr": r.stderr[-6000:], "current": cur, "failures": [], "traces": []}
+        err = r.stderr if len(r.stderr) < 40000 else r.stderr[:20000] + "\n[...]\n" + r.stderr[-20000:]
+        m = re.search(r"^(fatal error:.*|panic:.*|WARNING: DATA RACE.*|race: .*|runtime: .*)$", r.stderr, re.M)
+        return {"crash": True, "rc": r.returncode, "stderr": err, "headline": m.group(1) if m else "", "current": cur, "failures": [], "traces": []}
     res = json.load(open(op))
     res["crash"] = False
     return res
@@ -358,6 +361,10 @@ def classify(f, bounds, active):
             return KEY_EOF
         if active[KEY_LOWER] and i < len(h) and h[i][0] == 0 and ev.get("lowered") and r["n"] > h[i][4]:
             return KEY_LOWER
+        # a stale work (right bytes, but cut for the OLD region of interest) served after a re-resolve
+        if active[KEY_STALE] and i < len(h) and h[i][0] == 0 and r["n"] > h[i][4] and r["data"] < 0 \
+                and any(e.get("reresolve") for e in sh[:i + 1]):
+            return KEY_STALEWORK
     return None
 
 
@@ -369,6 +376,34 @@ def witness_scripts():
         rep = json.load(open(os.path.join(FINDINGS, fn)))["replay"]
         out[key] = (rep["file"], rep["conc"], rep["script"])
     return out
+
+
+def detect_active(ctx, racep, base_job, pool):
+    """Run the committed witness of every known finding (Concurrency 2, under -race); a finding is
+    active on this tree iff its witness still fails.  Failing witnesses are reported (KNOWN-FINDING)."""
+    wit = witness_scripts()
+    active = {k: False for k in WITNESS}
+
+    def run_witness(key):
+        fd, conc, h = wit[key]
+        r = run_harness(ctx, racep, dict(base_job, files=[fd], conc=[conc]), [{"id": 900000 + list(wit).index(key), "f": fd["id"], "h": h}],
+                        "wit-" + key, timeout=900)
+        return key, r
+
+    wres, wbounds = {}, {}
+    for key, r in pool.map(run_witness, list(wit)):
+        wres[key] = r
+        if r["crash"]:
+            raise ToolingError("witness run %s crashed: %s" % (key, r["stderr"][-2000:]))
+        active[key] = bool(r["failures"])
+        wbounds[key] = [0] + [c[1] for c in r["files"][wit[key][0]["id"]]["chunks"]]
+    for key in wit:
+        for f in wres[key]["failures"]:
+            k2 = classify(f, wbounds[key], active)
+            if k2 != key:
+                ctx.log("witness %s failed differently than recorded: %s" % (key, f["what"]))
+            report_failure(ctx, f, wit[key][0], wbounds[key], active, "witness " + WITNESS[key])
+    return active
 
 
 def report_failure(ctx, f, fdesc, bounds, active, origin):
@@ -503,11 +538,11 @@ def run(ctx, only_replay=None):
     cex_scripts = []        # (file, [alphabet calls], origin)
     model_findings = []
 
-    def isolate(name, geo, n, maxcalls, rl, sp, rg, unfixed, expect):
+    def isolate(name, geo, n, maxcalls, rl, sp, rg, unfixed, expect, invs=CONC_INVS, deadlock=True):
         """The model with exactly one repair switched off must show the defect ..."""
         fixed = [True, True, True]
         fixed[unfixed] = False
-        res = conc_model(ctx, name, n, geo[3], geo[4], maxcalls, rl, sp, rg, fixed)
+        res = conc_model(ctx, name, n, geo[3], geo[4], maxcalls, rl, sp, rg, fixed, invs=invs, deadlock=deadlock)
         what = "deadlock" if res["deadlock"] else res["violated"]
         if not what or what not in expect:
             raise ToolingError("RacConc (%s, FIXED%d = FALSE) no longer shows the known defect: got %s" % (name, unfixed + 1, what))
@@ -519,6 +554,9 @@ def run(ctx, only_replay=None):
     futs = []
     futs.append(pool.submit(isolate, "stale_g1", G1, 1, 4, [1], [3], [], 0, ("deadlock",)))
     futs.append(pool.submit(isolate, "stale_g3", G3, 1, 3, [1], [0, 4], [], 0, ("deadlock",)))
+    # a stale work of the old region, delivered after the ack, is served under the key of a fresh one
+    # and reaches beyond the new limit (file c2: two chunks of 4 bytes)
+    futs.append(pool.submit(isolate, "stalework_c2", ("c2", 1, "c2", [0, 4, 8], 8), 1, 4, [3, 4], [], [(3, 7)], 0, ("ReplyOK",), "ReplyOK", False))
     futs.append(pool.submit(isolate, "raise_g1", G1, 1, 4, [1, 2], [0], [(0, 2), (1, 4)], 1, ("deadlock",)))
     futs.append(pool.submit(isolate, "lower_g1b", G1B, 1, 3, [1, 2], [0], [(1, 2)], 1, ("ReplyOK",)))
     futs.append(pool.submit(isolate, "eof_g1", G1, 1, 3, [2], [0], [(0, 2)], 2, ("ReplyOK",)))
@@ -638,28 +676,7 @@ def run(ctx, only_replay=None):
     racep = fut_race.result()
     base_job = {"seed": ctx.seed, "files": list(fdescs.values()), "budget_ms": 1500 if thorough else 1000, "grace_ms": 2000, "perturb": 1}
     # 5a. the witnesses of the known findings decide which findings are still active
-    wit = witness_scripts()
-    wres = {}
-
-    def run_witness(key):
-        fd, conc, h = wit[key]
-        r = run_harness(ctx, racep, dict(base_job, files=[fd], conc=[conc]), [{"id": 900000 + list(wit).index(key), "f": fd["id"], "h": h}],
-                        "wit-" + key, timeout=600)
-        return key, r
-
-    wbounds = {}
-    for key, r in pool.map(run_witness, list(wit)):
-        wres[key] = r
-        if r["crash"]:
-            raise ToolingError("witness run %s crashed: %s" % (key, r["stderr"][-2000:]))
-        active[key] = bool(r["failures"])
-        wbounds[key] = [0] + [c[1] for c in r["files"][wit[key][0]["id"]]["chunks"]]
-    for key in wit:
-        for f in wres[key]["failures"]:
-            k2 = classify(f, wbounds[key], active)
-            if k2 != key:
-                ctx.log("witness %s failed differently than recorded: %s" % (key, f["what"]))
-            report_failure(ctx, f, wit[key][0], wbounds[key], active, "witness " + WITNESS[key])
+    active = detect_active(ctx, racep, base_job, pool)
     ctx.log("known findings still reproducing on this tree: %s" % {k: v for k, v in active.items()})
     fixed_flags = [not active[KEY_STALE], not (active[KEY_RAISE] or active[KEY_LOWER]), not active[KEY_EOF]]
 
@@ -742,8 +759,8 @@ def run(ctx, only_replay=None):
             sid = int(cur[1]) if cur else None
             s = next((x for x in lst if x["id"] == sid), None)
             race = "DATA RACE" in r["stderr"]
-            what = ("DATA RACE reported by the Go race detector" if race else "the process died (panic in a lib/rac goroutine?)") + \
-                   " while running on rac.Reader{Concurrency: %d}: %s\n%s" % (c, fmt_script(s["h"]) if s else "?", r["stderr"][-2500:])
+            what = ("DATA RACE reported by the Go race detector" if race else "the process died (rc %s: %s)" % (r["rc"], r.get("headline"))) + \
+                   " while running on rac.Reader{Concurrency: %d}: %s\n%s" % (c, fmt_script(s["h"]) if s else "?", r["stderr"][:2500])
             ctx.violation(what, {"file": fdescs[s["f"]] if s else None, "conc": c, "script": s["h"] if s else None,
                                  "kind": "race" if race else "crash", "stderr": r["stderr"]})
             conc_fail += 1
@@ -841,19 +858,30 @@ def run(ctx, only_replay=None):
 def replay(ctx, path):
     rep = json.load(open(path))
     rep = rep.get("replay", rep)
-    fdesc, h, conc = rep["file"], rep["script"], rep["conc"]
+    fdesc, h, conc = rep.get("file"), rep.get("script"), rep.get("conc")
+    if not fdesc or h is None:
+        print(json.dumps(rep, indent=1)[:4000])
+        raise ToolingError("this replay file does not name a file and a script; re-run `bin/check C14 <tier>`")
     print("replaying on rac.Reader{Concurrency: %d}, file %s: %s" % (conc, fdesc, fmt_script(h)))
     hv = os.path.join(vlib.REPO, "lib", "rac", "conc_reader_verif.go")
     tags = "verif racverifhook" if os.path.exists(hv) and "VerifHook" in open(hv).read() else "verif"
     racep = ctx.go_build("./cmd/racrreplay", "racrreplay_race", tags, True)
-    job = {"seed": ctx.seed, "files": [fdesc], "budget_ms": 1500, "grace_ms": 2000, "perturb": 1, "conc": [conc]}
-    r = run_harness(ctx, racep, job, [{"id": 1, "f": fdesc["id"], "h": h}], "replay", timeout=600)
-    if r["crash"]:
-        ctx.violation("process died / data race while replaying:\n" + r["stderr"][-3000:], dict(rep, stderr=r["stderr"]))
-        return
-    bounds = [0] + [c[1] for c in r["files"][fdesc["id"]]["chunks"]]
-    if not r["failures"]:
-        print("the script now runs to its end with every reply as expected: not reproduced on this tree")
-    active = {k: (rep.get("key") == k) for k in WITNESS}
-    for f in r["failures"]:
-        report_failure(ctx, f, fdesc, bounds, active, "replay of " + path)
+    base_job = {"seed": ctx.seed, "budget_ms": 1500, "grace_ms": 2000, "perturb": 1}
+    pool = ThreadPoolExecutor(max_workers=4)
+    is_witness = any(os.path.abspath(path) == os.path.join(FINDINGS, fn) for fn in WITNESS.values())
+    active = detect_active(ctx, racep, base_job, pool)
+    if is_witness:
+        return          # detect_active has just replayed and reported it
+    # timing-dependent failures: a few differently perturbed runs
+    for k in range(5 if rep.get("kind") in ("hang", "mismatch", "oracle", "leak", "race", "crash") else 1):
+        r = run_harness(ctx, racep, dict(base_job, files=[fdesc], conc=[conc], seed=ctx.seed + 1000 * k), [{"id": 1, "f": fdesc["id"], "h": h}],
+                        "replay%d" % k, timeout=900)
+        if r["crash"]:
+            ctx.violation("process died / data race while replaying:\n" + r["stderr"][:3000], dict(rep, stderr=r["stderr"]))
+            return
+        bounds = [0] + [c[1] for c in r["files"][fdesc["id"]]["chunks"]]
+        for f in r["failures"]:
+            report_failure(ctx, f, fdesc, bounds, active, "replay of " + path)
+        if r["failures"]:
+            return
+    print("the script ran to its end with every reply as expected: not reproduced on this tree")
